@@ -36,6 +36,9 @@ def request_mutators(B):
 
 
 def run(F, R, tier):
+    # body readers / `&mut Request` helpers are recognised by their own contracts (reader_is_sound, inline.with_request_helpers)
+    from lib import facts as _facts
+    F = R.F = _facts.raw_view(F)
     R.explanation = (
         "Necessary structural conditions of transparency (byte-for-byte relay through hyper itself is a runtime property and is "
         "NOT decided): (R1) mutation inventory of the forwarded request – only HeaderMap::insert of the three proxy-owned names, no "
